@@ -498,6 +498,21 @@ def _random_chunk(args):
     return out
 
 
+RETRIED = []
+
+
+def run_mc(module, cfg, workers=None, timeout=3000):
+    """one model-checking run; a run that ended with an error which is not a violated invariant (resource trouble on
+    a shared machine: out of memory, killed JVM, time-out) is repeated once; what happened is kept for the evidence"""
+    mc = None
+    for attempt in (1, 2):
+        mc = tlc.run(module, cfg, workers=workers or WORKERS, timeout=timeout, heap=HEAP)
+        if mc.violated or not mc.errors:
+            return mc
+        RETRIED.append({"run": cfg, "attempt": attempt, "rc": mc.rc, "errors": mc.errors[:3], "tail": mc.stdout[-600:]})
+    return mc
+
+
 def run_trace(module, path, expect):
     """one trace-validation run; a run that TLC did not complete (resource trouble on a shared machine) is retried once"""
     tr = None
@@ -549,7 +564,7 @@ def main(argv):
         n_graph_cases = 0
         graph_trace = []
         for cfgname in graph_cfgs:
-            mc = tlc.run("MC_Links", cfgname, workers=WORKERS, timeout=2400, heap=HEAP)
+            mc = run_mc("MC_Links", cfgname, timeout=2400)
             rep.add_tlc(cfgname, mc)
             if mc.errors:
                 if mc.violated:
@@ -589,7 +604,7 @@ def main(argv):
 
         # ------------------------------------------------------------------ part B: MC (case mode + machine mode)
         inst_cfg = f"MC_LinksInst_{tier}"
-        mc = tlc.run("MC_LinksInst", inst_cfg, workers=WORKERS, timeout=3000, heap=HEAP)
+        mc = run_mc("MC_LinksInst", inst_cfg)
         rep.add_tlc(inst_cfg, mc)
         cases = []
         if mc.errors:
@@ -607,7 +622,7 @@ def main(argv):
             mc.printed, mc.stdout = [], ""
         # the machine-mode instance runs while the shapes are replayed
         box = {}
-        th = threading.Thread(target=lambda: box.setdefault("r", tlc.run("MC_LinksInst", f"MC_LinksInst_machine_{tier}", workers=max(2, WORKERS // 2), timeout=3000, heap=HEAP)))
+        th = threading.Thread(target=lambda: box.setdefault("r", run_mc("MC_LinksInst", f"MC_LinksInst_machine_{tier}", workers=max(2, WORKERS // 2))))
         th.start()
 
         timing["inst_mc"] = clock.s()
@@ -653,7 +668,7 @@ def main(argv):
         timing["machine_mc_joined"] = clock.s()
         # ------------------------------------------------------------------ part B: histories (one parser, two calls)
         hcfg = f"MC_LinksInst_hist_{tier}"
-        mch = tlc.run("MC_LinksInst", hcfg, workers=WORKERS, timeout=3000, heap=HEAP)
+        mch = run_mc("MC_LinksInst", hcfg)
         rep.add_tlc(hcfg, mch)
         hcases = []
         if mch.errors:
@@ -776,6 +791,8 @@ def main(argv):
                                   f"instantiate_classes on a parser that is used twice ({origin}): {cl}", case)
                 else:
                     rep.violation(f"inst:{cl[4:]}:{'deep' if any('init_args' in o for o in sh['objs']) else 'flat'}", f"instantiate_classes: {cl}", case)
+        if RETRIED:
+            rep.extra["tlc_runs_repeated"] = RETRIED
         return rep.finish()
     finally:
         pool.terminate()
